@@ -312,6 +312,17 @@ func (c *stepCtx) stepEncode(k int, st map[string]interface{}) string {
 			blen = 0
 		}
 	}
+	if mode == "size" {
+		// the buffer is sized from EncodedSize: no probing EncodeObject call disturbs the history
+		if n0, pan0 := callSize(iface); pan0 == nil {
+			blen = n0 + blen
+		} else {
+			blen = 64
+		}
+		if blen < 0 {
+			blen = 0
+		}
+	}
 	back := make([]byte, blen+extra)
 	for i := range back {
 		back[i] = guardAt(i)
